@@ -25,28 +25,6 @@ end
 theorem nodup_prefix {α : Type} {l1 l2 : List α} (h : (l1 ++ l2).Nodup) : l1.Nodup :=
   (List.nodup_append.1 h).1
 
-theorem edgeScopes_some (W : World) (n : Name) (params : Params) (kind : Kind) (e : IREdge)
-    (hk : EdgeKindOK W n params kind e) (hko : childMiss false kind = false) (x : VertexId) :
-    ∀ s ∈ edgeScopes W e (some x), s.isSome := by
-  intro s hs
-  unfold edgeScopes at hs
-  cases kind with
-  | plain =>
-    obtain ⟨ho, hr⟩ := hk
-    simp only [hr, ho, scopes, Option.isNone_some, Bool.and_false, Bool.or_self, Bool.false_eq_true,
-      if_false, List.append_nil, List.mem_map] at hs
-    obtain ⟨y, _, rfl⟩ := hs; rfl
-  | optional => simp [childMiss] at hko
-  | recurse d =>
-    obtain ⟨r, hrec, _⟩ := hk
-    simp only [hrec, recScopes, List.mem_map] at hs
-    obtain ⟨y, _, rfl⟩ := hs; rfl
-  | fold fds => exact absurd hk (by simp [EdgeKindOK])
-
-theorem childMiss_false {miss : Bool} {kind : Kind} (h : childMiss miss kind = false) :
-    miss = false ∧ childMiss false kind = false := by
-  cases kind <;> simp_all [childMiss]
-
 /-- The assignment of a context depends on its three maps only. -/
 theorem absL_congr_maps (W : World) (base : List (Name × Tagged)) (L : List Ev) {c c1 : Ctx}
     (hv : c1.vertices = c.vertices) (hf : c1.foldCounts = c.foldCounts)
@@ -68,16 +46,15 @@ theorem Inv.congr_maps {W : World} {c c1 : Ctx} {L : List Ev} (hi : Inv W c L)
     by have := hi.fv; simpa [fvKeys, hfv] using this⟩
 
 mutual
-theorem sim_node : ∀ (node : QNode) (W : World) (miss : Bool) (vid : Vid)
-    (L : List Ev) (ss : List Stage) (evs : List Ev), NodeCert W miss node vid L ss evs →
+theorem sim_node : ∀ (node : QNode) (W : World) (vid : Vid)
+    (L : List Ev) (ss : List Stage) (evs : List Ev), NodeCert W node vid L ss evs →
     ∀ (fuel ifuel : Nat), height node ≤ fuel → foldHeight node ≤ ifuel →
     ∀ (base : List (Name × Tagged)) (c : Ctx), Inv W c L → ImportsOK W c base →
-    SimHyps W base (L ++ evs) → (miss = false → c.active.isSome) →
+    SimHyps W base (L ++ evs) →
     SimO (absL W base (L ++ evs))
       (fun c' => Ext c c' ∧ Inv W c' (L ++ evs) ∧ (c.active = none → c'.active = none))
       (nodeO W ifuel vid ss c) (evalNode W.senv fuel node c.active (absL W base L c)).toOption
-  | .mk ct fields, W, miss, vid, L, ss, evs, hcert, fuel, ifuel, hfuel, hifuel, base, c, hi, himp, hs,
-      hmiss => by
+  | .mk ct fields, W, vid, L, ss, evs, hcert, fuel, ifuel, hfuel, hifuel, base, c, hi, himp, hs => by
     unfold NodeCert at hcert
     obtain ⟨V, evs', rfl, hV, hvid, hco, hfl, hTG, hOG, hF⟩ := hcert
     obtain ⟨f, rfl⟩ : ∃ f, fuel = f + 1 := by
@@ -107,9 +84,9 @@ theorem sim_node : ∀ (node : QNode) (W : World) (miss : Bool) (vid : Vid)
         simp only [Bool.false_eq_true, if_false, runO_nil_ctx]
         exact SimO.nil _ _
       · simp only [R.toOption_ok, Option.map_some, boolCtx, Option.bind_some, if_true]
-        have hrec := sim_fields fields W miss vid (L ++ [.vtx vid]) ss evs' hF f ifuel hfuel'
+        have hrec := sim_fields fields W vid (L ++ [.vtx vid]) ss evs' hF f ifuel hfuel'
           hifuel' base (Ctx.record c vid) c.active (hi.record vid) (himp.of_imported rfl) (by simp)
-          (vertexAt_record c vid hfresh) (fun h => h) hmiss (by simpa using hs)
+          (vertexAt_record c vid hfresh) (fun h => h) (by simpa using hs)
         have hL : L ++ Ev.vtx vid :: evs' = (L ++ [.vtx vid]) ++ evs' := by simp
         rw [hL]
         refine hrec.mono ?_
@@ -119,38 +96,38 @@ theorem sim_node : ∀ (node : QNode) (W : World) (miss : Bool) (vid : Vid)
       · exact SimO.none _ _
     · simp only [hcoe, Bool.false_eq_true, if_false, Option.bind_some, runO_nil_ctx]
       exact SimO.nil _ _
-theorem sim_fields : ∀ (fields : List QField) (W : World) (miss : Bool)
+theorem sim_fields : ∀ (fields : List QField) (W : World)
     (vid : Vid) (L : List Ev) (ss : List Stage) (evs : List Ev),
-    FieldsCert W miss fields vid L ss evs →
+    FieldsCert W fields vid L ss evs →
     ∀ (fuel ifuel : Nat), heightFields fields ≤ fuel → foldHeightFields fields ≤ ifuel →
     ∀ (base : List (Name × Tagged)) (c : Ctx) (v : Option VertexId), Inv W c L →
-    ImportsOK W c base → Ev.vtx vid ∈ L → c.vertexAt? vid = some v → (v = none → c.active = none) → (miss = false → v.isSome) →
+    ImportsOK W c base → Ev.vtx vid ∈ L → c.vertexAt? vid = some v → (v = none → c.active = none) →
     SimHyps W base (L ++ evs) →
     SimO (absL W base (L ++ evs))
       (fun c' => Ext c c' ∧ Inv W c' (L ++ evs) ∧ (v = none → c'.active = none))
       (runO W ifuel ss [c])
       (evalFields W.senv fuel (ownersOf W.D v) fields v [absL W base L c]).toOption
-  | [], W, miss, vid, L, ss, evs, hcert, fuel, ifuel, _, _, base, c, v, hi, _, _, _, hact, _, _ => by
+  | [], W, vid, L, ss, evs, hcert, fuel, ifuel, _, _, base, c, v, hi, _, _, _, hact, _ => by
     unfold FieldsCert at hcert
     obtain ⟨rfl, rfl⟩ := hcert
     simp only [runO, evalFields_nil, R.toOption_ok, List.append_nil]
     exact SimO.single _ ⟨Ext.refl c, hi, hact⟩
-  | .prop n dirs :: rest, W, miss, vid, L, ss, evs, hcert, fuel, ifuel, hfuel, hifuel, base, c, v,
-      hi, himp, hvL, hv, hact, hmiss, hs => by
+  | .prop n dirs :: rest, W, vid, L, ss, evs, hcert, fuel, ifuel, hfuel, hifuel, base, c, v,
+      hi, himp, hvL, hv, hact, hs => by
     unfold FieldsCert at hcert
     rw [evalFields_prop]
-    exact sim_fields rest W miss vid L ss evs hcert fuel ifuel
+    exact sim_fields rest W vid L ss evs hcert fuel ifuel
       (by simpa [heightFields] using hfuel) (by simpa [foldHeightFields] using hifuel) base c v hi himp
-      hvL hv hact hmiss hs
-  | .edge n params kind child :: rest, W, miss, vid, L, ss, evs, hcert, fuel, ifuel, hfuel, hifuel,
-      base, c, v, hi, himp, hvL, hv, hact, hmiss, hs => by
+      hvL hv hact hs
+  | .edge n params kind child :: rest, W, vid, L, ss, evs, hcert, fuel, ifuel, hfuel, hifuel,
+      base, c, v, hi, himp, hvL, hv, hact, hs => by
     unfold FieldsCert at hcert
     have hfC : height child ≤ fuel := by simp only [heightFields] at hfuel; omega
     have hfR : heightFields rest ≤ fuel := by simp only [heightFields] at hfuel; omega
     have hifR : foldHeightFields rest ≤ ifuel := by simp only [foldHeightFields] at hifuel; omega
     -- what remains after the first stage: the siblings
     have hrestK : ∀ (evs1 evsR : List Ev) (ssR : List Stage)
-        (hR : FieldsCert W miss rest vid (L ++ evs1) ssR evsR)
+        (hR : FieldsCert W rest vid (L ++ evs1) ssR evsR)
         (hsR : SimHyps W base ((L ++ evs1) ++ evsR)) (cs' : List Ctx),
         (∀ c' ∈ cs', Ext c c' ∧ Inv W c' (L ++ evs1) ∧ (v = none → c'.active = none)) →
         SimO (absL W base ((L ++ evs1) ++ evsR))
@@ -167,8 +144,8 @@ theorem sim_fields : ∀ (fields : List QField) (W : World) (miss : Bool)
         have hk : vid ∈ keys c := by rw [hi.vk]; exact mem_vtxs.2 hvL
         rw [vertexAt?_eq_look (hext.keys_subset hk), look_stable hext hk]
         unfold look; rw [hv]; rfl
-      have hrec := sim_fields rest W miss vid (L ++ evs1) ssR evsR hR fuel ifuel hfR hifR base c' v
-        hinv' (himp.of_imported hext.imported) (List.mem_append_left _ hvL) hvc' hactc' hmiss hsR
+      have hrec := sim_fields rest W vid (L ++ evs1) ssR evsR hR fuel ifuel hfR hifR base c' v
+        hinv' (himp.of_imported hext.imported) (List.mem_append_left _ hvL) hvc' hactc' hsR
       exact hrec.mono fun c'' h'' => ⟨hext.trans h''.1, h''.2.1, h''.2.2⟩
     cases kind
     case fold fds =>
@@ -183,17 +160,17 @@ theorem sim_fields : ∀ (fields : List QField) (W : World) (miss : Bool)
         rw [this] at hs; exact hs.prefix
       have hndIn : (evsIn.map evVid).Nodup := facts.ndIn
       have hvisitIn : VisitOK [f.toVid] ssIn :=
-        (visit_node child (W.inner f) false f.toVid [] ssIn evsIn hcertIn (by simpa using hndIn)
+        (visit_node child (W.inner f) f.toVid [] ssIn evsIn hcertIn (by simpa using hndIn)
           [f.toVid] (by simp [evVid])).1
-      have hnilIn := nodeCert_stage_nil child (W.inner f) false f.toVid [] ssIn evsIn hcertIn k
+      have hnilIn := nodeCert_stage_nil child (W.inner f) f.toVid [] ssIn evsIn hcertIn k
       have hin : ∀ (base' : List (Name × Tagged)) (c0 : Ctx), Inv (W.inner f) c0 [] →
           c0.active.isSome → SimHyps (W.inner f) base' evsIn → ImportsOK (W.inner f) c0 base' →
           SimO (absL (W.inner f) base' evsIn) (fun c' => Inv (W.inner f) c' evsIn)
             (nodeO (W.inner f) k f.toVid ssIn c0)
             (evalNode W.senv fuel child c0.active (absL (W.inner f) base' [] c0)).toOption := by
-        intro base' c0 hinv0 hact0 hs0 himp0
-        have := sim_node child (W.inner f) false f.toVid [] ssIn evsIn hcertIn fuel k hfC hifC base'
-          c0 hinv0 himp0 (by simpa using hs0) (fun _ => hact0)
+        intro base' c0 hinv0 _ hs0 himp0
+        have := sim_node child (W.inner f) f.toVid [] ssIn evsIn hcertIn fuel k hfC hifC base'
+          c0 hinv0 himp0 (by simpa using hs0)
         simp only [List.nil_append] at this
         exact this.mono fun c' h => h.2.1
       -- the fold stage itself
@@ -204,8 +181,8 @@ theorem sim_fields : ∀ (fields : List QField) (W : World) (miss : Bool)
             (absL W base L c)).toOption := by
         cases v with
         | none =>
-          have := fold_stage_none W facts.lim facts hcertIn fuel k hvisitIn hnilIn base c hi himp hv
-            (fun hm => by simpa using hmiss hm) hs1
+          have := fold_stage_none W facts.lim facts hcertIn fuel k hvisitIn hnilIn base c hi himp hvL hv
+            hs1
           exact this.mono fun c' h => ⟨h.1, h.2.1, fun _ => h.2.2⟩
         | some x =>
           have := fold_stage_some W facts.lim facts hcertIn fuel k hvisitIn hnilIn hndIn hin base c x hi himp hvL hv
@@ -257,13 +234,8 @@ theorem sim_fields : ∀ (fields : List QField) (W : World) (miss : Bool)
       · apply SimO.flatMapO
         intro s hs'
         have hi1 : Inv W ({ c1 with active := s } : Ctx) L := hi.congr_maps hv1 hf1 hfv1
-        have hsim := sim_node child W _ e.toVid L ssC evsC hC fuel ifuel hfC hifC base
-          { c1 with active := s } hi1 (himp.of_imported hext1.imported) hsC (by
-            intro hcm
-            obtain ⟨hm, hk0⟩ := childMiss_false hcm
-            obtain ⟨x, hx⟩ := Option.isSome_iff_exists.1 (hmiss hm)
-            subst hx
-            exact edgeScopes_some W n params _ e hkind hk0 x s hs')
+        have hsim := sim_node child W e.toVid L ssC evsC hC fuel ifuel hfC hifC base
+          { c1 with active := s } hi1 (himp.of_imported hext1.imported) hsC
         have habs : absL W base L ({ c1 with active := s } : Ctx) = absL W base L c :=
           absL_congr_maps W base L hv1 hf1 hfv1
         rw [habs] at hsim
